@@ -252,6 +252,34 @@ fn executor_part(rep: &Arc<Reporter>, args: &Args) {
 
 // ------------------------------------------------------------------ real handlers
 
+/// Records every byte the server side sends (cleartext HTTP/2 over an in-memory transport): a GOAWAY frame is then
+/// something the client *observed*, whatever its own writes ran into afterwards
+struct RecvTap<T> { inner: T, seen: Arc<Mutex<Vec<u8>>> }
+impl<T: tokio::io::AsyncRead + Unpin> tokio::io::AsyncRead for RecvTap<T> {
+    fn poll_read(mut self: Pin<&mut Self>, cx: &mut Context<'_>, buf: &mut tokio::io::ReadBuf<'_>) -> std::task::Poll<std::io::Result<()>> {
+        let before = buf.filled().len();
+        let r = Pin::new(&mut self.inner).poll_read(cx, buf);
+        if buf.filled().len() > before { self.seen.lock().unwrap().extend_from_slice(&buf.filled()[before..]); }
+        r
+    }
+}
+impl<T: tokio::io::AsyncWrite + Unpin> tokio::io::AsyncWrite for RecvTap<T> {
+    fn poll_write(mut self: Pin<&mut Self>, cx: &mut Context<'_>, data: &[u8]) -> std::task::Poll<std::io::Result<usize>> { Pin::new(&mut self.inner).poll_write(cx, data) }
+    fn poll_flush(mut self: Pin<&mut Self>, cx: &mut Context<'_>) -> std::task::Poll<std::io::Result<()>> { Pin::new(&mut self.inner).poll_flush(cx) }
+    fn poll_shutdown(mut self: Pin<&mut Self>, cx: &mut Context<'_>) -> std::task::Poll<std::io::Result<()>> { Pin::new(&mut self.inner).poll_shutdown(cx) }
+}
+
+/// does the recorded server->client HTTP/2 byte stream contain a GOAWAY frame?
+fn saw_goaway(bytes: &[u8]) -> bool {
+    let mut i = 0usize;
+    while i + 9 <= bytes.len() {
+        let len = ((bytes[i] as usize) << 16) | ((bytes[i + 1] as usize) << 8) | bytes[i + 2] as usize;
+        if bytes[i + 3] == 0x7 { return true; }
+        i += 9 + len;
+    }
+    false
+}
+
 fn handlers_part(rep: &Arc<Reporter>, args: &Args) {
     let dir = env::work_dir(&args.root, "c19");
     let rt = env::rt_multi(8);
@@ -266,6 +294,7 @@ fn handlers_part(rep: &Arc<Reporter>, args: &Args) {
             let finished = Arc::new(AtomicU64::new(0));
             let mut clients = vec![];
             let mut servers = vec![];
+            let mut all_established: Vec<Arc<AtomicBool>> = vec![];
             let mut kinds: Vec<String> = vec![];
             for s in 0..nsess {
                 let kind = r.below(4);
@@ -288,25 +317,41 @@ fn handlers_part(rep: &Arc<Reporter>, args: &Args) {
                 // client side: establish the session (h2 preface / nothing for h1) and then watch for the end
                 let saw_end = Arc::new(AtomicBool::new(false));
                 let graceful = Arc::new(AtomicBool::new(false));
-                let (se, gr) = (saw_end.clone(), graceful.clone());
+                let established = Arc::new(AtomicBool::new(false));
+                let (se, gr, est) = (saw_end.clone(), graceful.clone(), established.clone());
+                all_established.push(established);
                 let open_tunnel = kind == 0;
                 let j = tokio::spawn(async move {
                     match proto {
                         Proto::H2 => {
-                            if let Ok((mut send, conn)) = h2::client::handshake(client).await {
+                            let seen: Arc<Mutex<Vec<u8>>> = Default::default();
+                            if let Ok((mut send, mut conn)) = h2::client::handshake(RecvTap { inner: client, seen: seen.clone() }).await {
+                                let pp = conn.ping_pong();
                                 let watcher = tokio::spawn(async move { let r = conn.await; (r.is_ok(), ()) });
+                                // a PING round trip: the server side of the session is up and running
+                                if let Some(mut pp) = pp { let _ = tokio::time::timeout(Duration::from_secs(5), pp.ping(h2::Ping::opaque())).await; }
                                 let mut keep = None;
                                 if open_tunnel {
                                     let _ = futures::future::poll_fn(|cx| send.poll_ready(cx)).await;
                                     if let Ok((fut, tx)) = send.send_request(http::Request::builder().method("CONNECT").uri("echo.test:7").body(()).unwrap(), false) { let _ = tokio::time::timeout(Duration::from_secs(2), fut).await; keep = Some(tx); }
                                 }
+                                est.store(true, Ordering::SeqCst);
                                 // a GOAWAY makes the connection future resolve once streams are done; drop ours when told to
                                 let res = watcher_with_drop(watcher, keep, send).await;
+                                // told to go away = the connection ended in order, or a GOAWAY frame was received before it ended
+                                // (the client's own late writes may hit the closed transport afterwards)
+                                let res = res || saw_goaway(&seen.lock().unwrap());
                                 gr.store(res, Ordering::SeqCst);
+                                se.store(true, Ordering::SeqCst);
+                            } else {
+                                // the shutdown overtook the HTTP/2 preface exchange: the session ended before it began (not judged)
+                                est.store(true, Ordering::SeqCst);
+                                gr.store(true, Ordering::SeqCst);
                                 se.store(true, Ordering::SeqCst);
                             }
                         }
                         _ => {
+                            est.store(true, Ordering::SeqCst);
                             let (mut rd, wr) = tokio::io::split(client);
                             let (_got, closed) = read_until_quiet(&mut rd, Duration::from_secs(20), 1 << 16).await;
                             gr.store(closed, Ordering::SeqCst);
@@ -348,11 +393,21 @@ fn handlers_part(rep: &Arc<Reporter>, args: &Args) {
                 if unguarded >= 3 { break; }
                 continue;
             }
+            // second logical barrier: every client's session is established (HTTP/2: a PING came back), so that "told to go
+            // away" is judged for sessions that exist, not for ones still exchanging prefaces
+            let mut all_up = false;
+            for _ in 0..5000 { if all_established.iter().all(|e| e.load(Ordering::SeqCst)) { all_up = true; break; } tokio::time::sleep(Duration::from_millis(1)).await; }
+            if !all_up {
+                rep.inconclusive("handlers: not every client session was established within 5 s");
+                for (_, _, _, j) in clients { j.abort(); }
+                for s in servers { s.abort(); }
+                continue;
+            }
             sd.lock().unwrap().submit();
             let done = tokio::time::timeout(Duration::from_secs(10), tokio::task::spawn_blocking({ let sd = sd.clone(); move || { let rt = tokio::runtime::Builder::new_current_thread().build().unwrap(); rt.block_on(async { #[allow(clippy::await_holding_lock)] { let mut g = sd.lock().unwrap(); g.completion().await; } }) } })).await;
             rep.evals(1);
             rep.distinct(common::fnv(format!("round|{}|{}", round, nsess).as_bytes()));
-            let w = json!({"kind":"shutdown-handlers","round":round,"sessions":nsess,"handlers_finished_at_completion":finished.load(Ordering::SeqCst)});
+            let w = json!({"kind":"shutdown-handlers","round":round,"sessions":nsess,"session_kinds":kinds.clone(),"handlers_finished_at_completion":finished.load(Ordering::SeqCst)});
             match done {
                 Err(_) => { rep.violation("completion() did not return within 10 s although every session was asked to shut down", w.clone()); }
                 Ok(_) => {
